@@ -255,6 +255,23 @@ def witnesses(pm: ProgramModel, ctx: Ctx) -> None:
                 "relations [1..*] and [1..3] over three children", rw)
     must_differ("Relation:card_max-above-n", rel("P", ["a", "b", "c"], 1, 3), rel("P", ["a", "b", "c"], 1, 4),
                 "relations differing in card_max beyond the number of children", rw)
+    # twelve members: whatever looks at a prefix, a fixed number of members or a digest of a few of them is right for
+    # every small group
+    big = [f"n{i:02d}" for i in range(12)]
+    for perm_key, perm in {"rev": big[::-1], "rot": big[5:] + big[:5], "swap-last-two": big[:10] + [big[11], big[10]],
+                           "swap-ends": [big[11]] + big[1:11] + [big[0]]}.items():
+        must_equal("C20-WITNESS", f"Relation:12-members:perm-{perm_key}", rel("P", big, 4, 7), rel("P", perm, 4, 7),
+                   f"relations with twelve permuted children ({perm_key})", rw)
+    must_differ("Relation:12-members:last-replaced", rel("P", big, 4, 7), rel("P", big[:11] + ["other"], 4, 7),
+                "twelve-member relations whose last member differs", rw)
+    must_differ("Relation:12-members:tenth-replaced", rel("P", big, 4, 7), rel("P", big[:9] + ["other"] + big[10:], 4, 7),
+                "twelve-member relations whose tenth member differs", rw)
+    must_differ("Relation:12-members:last-removed", rel("P", big, 4, 7), rel("P", big[:11], 4, 7),
+                "a twelve-member relation and the same without its last member", rw)
+    must_differ("Relation:two-digit-bounds", rel("P", big, 1, 11), rel("P", big, 1, 12),
+                "twelve-member relations [1..11] and [1..12]", rw)
+    must_differ("Relation:two-digit-bounds-min", rel("P", big, 10, 12), rel("P", big, 11, 12),
+                "twelve-member relations [10..12] and [11..12]", rw)
     # sort key invariance: two equal relations are not strictly ordered either way
     lt = pm.method(pm.cls("Relation"), "__lt__")
     if lt is not None:
@@ -415,6 +432,35 @@ def witnesses(pm: ProgramModel, ctx: Ctx) -> None:
                 "models with the same distinct constraints, a different one of them stated twice", mw)
     must_differ("FeatureModel:repeated-vs-once", model(0, "twice-first"), m0,
                 "a model with a constraint stated twice vs once", mw)
+    # a larger model: twelve single children, a twelve-member group, twelve constraints - permuted copy equal, an edit
+    # of the last member / last constraint / a feature five levels down unequal
+    def wide(order: int, edit: Optional[str] = None) -> AObj:
+        R = mb.feature("R")
+        hosts = [mb.feature(f"h{i:02d}") for i in range(12)]
+        members = [mb.feature(f"g{i:02d}" if not (edit == "member" and i == 11) else "gXX") for i in range(12)]
+        rl = [(R, [h], (i + 1) % 2, 1) for i, h in enumerate(hosts)]
+        grp = members if order == 0 else members[7:] + members[:7]
+        if order:
+            rl = rl[::-1]
+        for (p_, ch, a, b) in rl:
+            mb.relation(p_, ch, a, b)
+        mb.relation(hosts[0], grp, 4, 7)
+        cur = hosts[1]
+        for i in range(5):
+            nxt = mb.feature(f"d{i}" if not (edit == "deep" and i == 4) else "dX")
+            mb.relation(cur, [nxt], i % 2, 1)
+            cur = nxt
+        cs = [mb.constraint(f"k{i:02d}", mb.node(op("IMPLIES" if not (edit == "ctc" and i == 11) else "EXCLUDES"),
+                                                 mb.node("h00"), mb.node(f"h{i:02d}"))) for i in range(1, 12)]
+        if edit == "dropctc":
+            cs = cs[:-1]
+        return mb.model(R, cs if order == 0 else cs[4:] + cs[:4])
+    must_equal("C20-WITNESS", "FeatureModel:wide/perm", wide(0), wide(1),
+               "a model with twelve siblings, a twelve-member group and eleven constraints, and its order-permuted copy", mw)
+    for edit in ("member", "deep", "ctc", "dropctc"):
+        must_differ(f"FeatureModel:wide:{edit}", wide(1), wide(0, edit),
+                    f"the larger model, permuted, vs edit '{edit}' (last group member renamed / feature five levels down "
+                    f"renamed / operator of the last constraint / last constraint dropped)", mw)
     for edit in ("rename", "root", "card", "regroup", "move", "operator", "operand", "dropctc"):
         must_differ(f"FeatureModel:{edit}", m0, model(0, edit), f"models differing by edit '{edit}'", mw)
         must_differ(f"FeatureModel:{edit}/perm", model(1), model(0, edit),
